@@ -163,6 +163,12 @@ impl<H: Hal, T: Transport> VirtIOGpu<H, T> {
     ///
     /// Returns a mutable slice to the new framebuffer memory.
     pub fn change_resolution(&mut self, width: u32, height: u32) -> Result<&mut [u8]> {
+        // The framebuffer size in bytes must be non-zero and fit the `u32` length of the backing entry.
+        let size = width
+            .checked_mul(height)
+            .and_then(|pixels| pixels.checked_mul(4))
+            .filter(|&size| size != 0)
+            .ok_or(Error::InvalidParam)?;
         let rect = Rect {
             x: 0,
             y: 0,
@@ -181,7 +187,6 @@ impl<H: Hal, T: Transport> VirtIOGpu<H, T> {
         self.rect = Some(rect);
         self.resource_create_2d(RESOURCE_ID_FB, width, height)?;
 
-        let size = width * height * 4;
         let frame_buffer_dma = Dma::new(
             pages(size as usize),
             BufferDirection::DriverToDevice,
